@@ -187,6 +187,7 @@ pub open spec fn rounds(l: Seq<Step>, n0: int, first: Option<Attach>, reattachin
 pub open spec fn suspended_after_resend(l: Seq<Step>) -> bool { forall|i: int| 1 <= i < l.len() && #[trigger] l[i] is Exchange ==> !(l[i - 1] is Resend) }
 impl SenderInner {
 //@@ fn file=fe2o3-amqp/src/link/sender.rs impl=`impl SenderInner<SenderLink<Target>>` name=resume_incoming_attach id=SenderInner::resume_incoming_attach
+//@@ shape loops=loop,for,for,for
 //@@ awaitcall
 //@@ qmark
 //@@ ret Result<(), ErrS>
